@@ -7,8 +7,51 @@
    over plain data, and the lookup order of the first name; subscripts with computed keys,
    method and function calls, pointers and Go-typed maps are exercised by the correspondence
    run and by the harness's reflection oracle against the real code only. *)
+(* ---- second part (statements appended below) ---- *)
+(* Property C08, second part - subscripts with computed keys, and the lookup order.
+
+   A name  x.a.3[e]["k"]  denotes exactly the value obtained by looking x up and following the
+   steps through the data.  [follow2] (Spec/SpecWalk2.v) is the reference, written from the
+   property text; it extends Spec/SpecWalk.v's [follow] with the step  a[e]  carrying the
+   value k the key expression evaluated to:
+     list / string : an integer key indexes, out of range (negative included) is empty;
+                     a key that is not an integer is empty;
+     map           : a string key looks up; missing, or a key that is not a string, is empty;
+     struct        : the key's text names the field;
+     anything else : execution error;   a nil met on the way: empty.
+   Only an integer is an index ([index_of_key]; pongo2 used to convert any key with
+   Value.Integer(), repaired as fix D38); see the findings in Tie/C08b.v (tie_c08b_findings):
+   a["1"], a[1.9], a[nil], a[true], a["x"], a[[]] are all empty; m[1] does NOT find the key
+   "1" of a map; "abc"[1] is the number 98.
+   Scope: key expressions that are PURE in the current state (evaluate without changing it -
+   literals and data names are, C08_pure_literal_keys / C08_pure_name_key); parts without
+   calls.  Method and function calls, pointers, Go-typed maps remain with the correspondence
+   run and the harness's reflection oracle.
+
+   What each theorem contributes:
+     C08_walk_follows_subscripts  the remaining parts of a name, computed keys included, to any
+                                  depth: the model's walk IS the reference;
+     C08_follow2_extends, C08_sub_int_is_index, C08_sub_str_is_name, C08_sub_out_of_range,
+     C08_sub_non_integer_key      the reference itself: it agrees with the first part's on static
+                                  steps, a[i] is a.i on sequences, a["k"] is a.k on maps and
+                                  structs, out of range is empty, a key that is not an integer
+                                  is empty on a list or string;
+     C08_lookup_order             the first name: private bindings of the top frame, then its
+                                  public context; then the reference;
+     C08_lookup_order_root        the public context of an execution is the caller's context over
+                                  the set's globals: three levels;
+     C08_set_shadows / C08_with_shadows / C08_for_shadows / C08_for_iteration_shadows
+                                  after set, inside with, inside every iteration of for, the
+                                  bound name denotes the bound value WHATEVER the context and
+                                  the globals hold under that name (the statements quantify over
+                                  every state);
+     C08b_witness...              the hypotheses are met by real paths and templates. *)
 From PV Require Import Model.Exec Spec.SpecWalk.
 From PV Require Import Tie.C08.
+From Coq Require Import List NArith ZArith.
+From PV Require Import Model.Exec Spec.SpecWalk Spec.SpecWalk2.
+From PV Require Import Tie.C08b.
+Import ListNotations.
 Open Scope N_scope.
 
 (* following the remaining steps of a name through data is the reference, to any depth;
@@ -65,3 +108,269 @@ Example C08_witness :
   follow w_data [SKey [98]; SKey [121]; SIdx 0] = FEmpty /\
   follow w_data [SKey [98]; SKey [120]; SIdx 0; SIdx 0] = FError.
 Proof. exact tie_c08_witness. Qed.
+
+
+(* ==================== second part ==================== *)
+
+(* following the parts of a name through data, computed keys included, is the reference, to any
+   depth; in particular it never panics, never changes the state, never yields a wrong value *)
+Theorem C08_walk_follows_subscripts :
+  forall se globals f0 st parts steps,
+    Forall2 (denotes (fun e k =>
+               exists s, forall f, (f0 <= f)%nat -> eval se globals f st e = Ok (mkV k s, st)))
+            parts steps ->
+    forall f cur safe,
+    (length steps + f0 < f)%nat ->
+    walk se globals f st cur safe parts =
+    match follow2 cur steps with
+    | Found v => Ok (mkV v safe, st)
+    | Empty => Ok (as_value VNil, st)
+    | ExecError => Err 3
+    | NotModelled => Unmod
+    end.
+Proof. exact tie_walk_follows_subscripts. Qed.
+Print Assumptions C08_walk_follows_subscripts.
+
+(* the reference extends the one of the first part *)
+Theorem C08_follow2_extends :
+  forall steps cur, follow2 cur (map lift_step steps) = lift_found (follow cur steps).
+Proof. exact tie_follow2_extends. Qed.
+Print Assumptions C08_follow2_extends.
+
+(* a computed integer key is the static index, on everything but maps and structs *)
+Theorem C08_sub_int_is_index :
+  forall cur i rest, keyed cur = None ->
+    follow2 cur (SSub (VInt i) :: rest) = follow2 cur (SIndex i :: rest).
+Proof. exact tie_sub_int_is_index. Qed.
+Print Assumptions C08_sub_int_is_index.
+
+(* a computed string key is the static name, on everything but lists and strings *)
+Theorem C08_sub_str_is_name :
+  forall cur k rest, is_seq cur = false ->
+    follow2 cur (SSub (VStr k) :: rest) = follow2 cur (SName k :: rest).
+Proof. exact tie_sub_str_is_name. Qed.
+Print Assumptions C08_sub_str_is_name.
+
+(* negative or too large: empty, whatever follows *)
+Theorem C08_sub_out_of_range :
+  forall l i rest,
+    (i < 0 \/ Z.of_nat (length l) <= i)%Z ->
+    follow2 (VList l) (SSub (VInt i) :: rest) = Empty.
+Proof. exact tie_sub_out_of_range. Qed.
+Print Assumptions C08_sub_out_of_range.
+
+(* on a list or a string only an integer key is an index: any other key (string, float, bool,
+   nil, list, map...) is empty, whatever follows *)
+Theorem C08_sub_non_integer_key :
+  forall cur k rest,
+    is_seq cur = true -> (forall i, k <> VInt i) ->
+    follow2 cur (SSub k :: rest) = Empty.
+Proof. exact tie_sub_non_integer_key. Qed.
+Print Assumptions C08_sub_non_integer_key.
+
+(* the first name is searched in the private context of the top frame, then in its public
+   context; data found there is followed by the reference, a name found nowhere is empty
+   (macros, blocks and cycle values are not data: no claim) *)
+Theorem C08_lookup_order :
+  forall se globals f0 f st fr name parts steps,
+    top_frame st = Ok fr ->
+    path_denotes se globals f0 st parts steps ->
+    (length steps + f0 < f)%nat ->
+    match lookup_name name (f_priv fr) (f_pub fr) with
+    | None => resolve se globals (S f) st (PIdent name None :: parts) = Ok (as_value VNil, st)
+    | Some (CV v) =>
+        resolve se globals (S f) st (PIdent name None :: parts) =
+        match vv v with
+        | VNil => Ok (as_value VNil, st)
+        | _ => answer (vsafe v) st (follow2 (vv v) steps)
+        end
+    | Some _ => True
+    end.
+Proof. exact tie_lookup_order. Qed.
+Print Assumptions C08_lookup_order.
+
+(* in the root frame of an execution the public context is the caller's context over the set's
+   globals (cf. C08_context_shadows_globals), so the order is: private, context, globals *)
+Theorem C08_lookup_order_root :
+  forall globals name priv t ctx id,
+    lookup_name name priv (f_pub (root_frame globals t ctx id)) = lookup_3 name priv ctx globals.
+Proof. exact tie_lookup_root. Qed.
+Print Assumptions C08_lookup_order_root.
+
+(* {% set name = e %}: in the state after the tag the name denotes the value e had, for every
+   path from it - whatever the public context (caller's keys, globals) holds under that name *)
+Theorem C08_set_shadows :
+  forall se globals f st name e o st',
+    exec_node se globals f st (NSet name e) = (o, Ok st') ->
+    exists v st1, eval se globals (pred f) st e = Ok (v, st1) /\ denotes_value se globals st' name v.
+Proof. exact tie_set_shadows. Qed.
+Print Assumptions C08_set_shadows.
+
+(* {% with k1=e1 k2=e2 ... %}body{% endwith %}: the body runs in a state st_in where every name
+   of the tag denotes its (last) value; the tag's result is the body's, the frame popped *)
+Theorem C08_with_shadows :
+  forall se globals f st pairs body fr vals st1,
+    top_frame st = Ok fr ->
+    eval_pairs se globals f st pairs = Ok (vals, st1) ->
+    exists st_in,
+      exec_node se globals (S f) st (NWith pairs body) =
+        (let '(o, r) := exec_nodes se globals f st_in body in
+         (o, match r with Ok st2 => Ok (pop_frame st2) | other => other end)) /\
+      map fst vals = map fst pairs /\
+      forall name v, ctx_get name (rev vals) = Some (CV v) -> denotes_value se globals st_in name v.
+Proof. exact tie_with_shadows. Qed.
+Print Assumptions C08_with_shadows.
+
+(* {% for key, value in obj %}: with a first item (k, vo), the tag runs the loop, whose first
+   iteration runs the body in a state st_it where the loop's names ([for_binding]: "forloop",
+   the value name, the key name) denote the loop information and the item *)
+Theorem C08_for_shadows :
+  forall se globals f st key value obj rv srt body empty fr ov st1 k vo rest,
+    top_frame st = Ok fr ->
+    eval se globals (S f) (for_entry_state st fr) obj = Ok (ov, st1) ->
+    iter_items (vv ov) rv srt = Ok (Some ((k, vo) :: rest)) ->
+    let count := Z.of_nat (length ((k, vo) :: rest)) in
+    exists st_it,
+      exec_node se globals (S (S f)) st (NFor key value obj rv srt body empty) =
+        (let '(o, r) := exec_for se globals (S f) st1 key value (for_parent fr) body ((k, vo) :: rest) 0 count in
+         (o, match r with Ok st2 => Ok (pop_frame st2) | other => other end)) /\
+      exec_for se globals (S f) st1 key value (for_parent fr) body ((k, vo) :: rest) 0 count =
+        match exec_nodes se globals f st_it body with
+        | (o1, Ok st2) =>
+            let '(o2, r) := exec_for se globals f st2 key value (for_parent fr) body rest (0 + 1) count in
+            (o1 ++ o2, r)
+        | other => other
+        end /\
+      forall name x, for_binding name key value k vo (loop_struct 0 count (for_parent fr)) = Some x ->
+        denotes_value se globals st_it name (as_value x).
+Proof. exact tie_for_shadows. Qed.
+Print Assumptions C08_for_shadows.
+
+(* every iteration, not only the first: the loop at item (k, vo), index idx *)
+Theorem C08_for_iteration_shadows :
+  forall se globals f st key value parent body k vo rest idx count fr,
+    top_frame st = Ok fr ->
+    exists st_it,
+      exec_for se globals (S f) st key value parent body ((k, vo) :: rest) idx count =
+        match exec_nodes se globals f st_it body with
+        | (o1, Ok st1) =>
+            let '(o2, r) := exec_for se globals f st1 key value parent body rest (idx + 1) count in
+            (o1 ++ o2, r)
+        | other => other
+        end /\
+      forall name x, for_binding name key value k vo (loop_struct idx count parent) = Some x ->
+        denotes_value se globals st_it name (as_value x).
+Proof. exact tie_for_iteration_shadows. Qed.
+Print Assumptions C08_for_iteration_shadows.
+
+(* keys that are pure: literals, and names of data (with any path that is itself pure) *)
+Theorem C08_pure_literal_keys :
+  forall se globals st,
+    (forall z, pure_key se globals 1 st (EInt z) (VInt z)) /\
+    (forall s, pure_key se globals 1 st (EStr s) (VStr s)).
+Proof. exact tie_pure_literals. Qed.
+Print Assumptions C08_pure_literal_keys.
+
+Theorem C08_pure_name_key :
+  forall se globals f0 st fr name v parts steps x,
+    top_frame st = Ok fr ->
+    lookup_name name (f_priv fr) (f_pub fr) = Some (CV v) ->
+    path_denotes se globals f0 st parts steps ->
+    follow2 (vv v) steps = Found x ->
+    pure_key se globals (length steps + f0 + 3) st (EVar (PIdent name None :: parts)) x.
+Proof. exact tie_pure_var. Qed.
+Print Assumptions C08_pure_name_key.
+
+(* non-vacuity: the reference on computed keys *)
+Example C08b_witness :
+  follow2 c08_map [SSub (VStr [108]); SSub (VInt 1)] = Found (VInt 20) /\
+  follow2 c08_map [SSub (VStr [108]); SSub (VInt 3)] = Empty /\
+  follow2 c08_map [SSub (VStr [108]); SSub (VInt (-1))] = Empty /\
+  follow2 c08_map [SSub (VStr [107]); SSub (VInt 0); SName [97]] = Empty /\
+  follow2 c08_map [SSub (VStr [108]); SSub (VInt 0); SSub (VInt 0)] = ExecError.
+Proof. exact tie_c08b_witness. Qed.
+
+(* non-vacuity: the hypotheses of C08_walk_follows_subscripts hold for the path ["l"][i] in a
+   concrete state (i is a key of the context), and the model computes what the theorem says *)
+Example C08b_witness_hypotheses :
+  path_denotes c08_senv [] 3 c08_state
+    [PSub (EStr [108]) None; PSub (EVar [PIdent [105] None]) None]
+    [SSub (VStr [108]); SSub (VInt 1)] /\
+  walk c08_senv [] 6 c08_state c08_map false
+    [PSub (EStr [108]) None; PSub (EVar [PIdent [105] None]) None] =
+  Ok (mkV (VInt 20) false, c08_state).
+Proof. split; [exact tie_c08b_hyp_witness|exact tie_c08b_model_witness]. Qed.
+
+(* non-vacuity of the lookup order, end to end (compile + execute; x is "g" in the globals and
+   "c" in the context): {{ x }} without and with the context; after set; inside and after with;
+   inside and after for *)
+Example C08b_witness_order :
+  (* {{ x }} : a global alone; a context key over it *)
+  c08_render c08_globals [] [123; 123; 32; 120; 32; 125; 125] = Some [103] (* g *) /\
+  c08_render c08_globals c08_ctx [123; 123; 32; 120; 32; 125; 125] = Some [99] (* c *) /\
+  (* {% set x = "s" %}{{ x }} *)
+  c08_render c08_globals c08_ctx [123; 37; 32; 115; 101; 116; 32; 120; 32; 61; 32; 34; 115; 34; 32; 37; 125; 123; 123; 32; 120; 32; 125; 125] = Some [115] (* s *) /\
+  (* {% with x="w" %}{{ x }}{% endwith %}{{ x }} *)
+  c08_render c08_globals c08_ctx [123; 37; 32; 119; 105; 116; 104; 32; 120; 61; 34; 119; 34; 32; 37; 125; 123; 123; 32; 120; 32; 125; 125; 123; 37; 32; 101; 110; 100; 119; 105; 116; 104; 32; 37; 125; 123; 123; 32; 120; 32; 125; 125] = Some [119; 99] (* wc *) /\
+  (* {% for x in l %}{{ x }}{% endfor %}{{ x }} *)
+  c08_render c08_globals c08_ctx [123; 37; 32; 102; 111; 114; 32; 120; 32; 105; 110; 32; 108; 32; 37; 125; 123; 123; 32; 120; 32; 125; 125; 123; 37; 32; 101; 110; 100; 102; 111; 114; 32; 37; 125; 123; 123; 32; 120; 32; 125; 125] = Some [102; 99] (* fc *).
+Proof. exact tie_c08b_order_witness. Qed.
+
+(* non-vacuity of the three shadowing theorems: their hypotheses hold in the concrete state for
+   the name i, which the context binds to 1 *)
+Example C08b_witness_shadow_hypotheses :
+  (exists st', exec_node c08_senv [] 3 c08_state (NSet [105] (* i *) (EStr [115] (* s *))) = ([], Ok st')) /\
+  (exists st1, eval_pairs c08_senv [] 3 c08_state [ ([105] (* i *), EStr [119] (* w *)) ] =
+               Ok ([ ([105] (* i *), CV (as_value (VStr [119] (* w *)))) ], st1)) /\
+  (exists st1, eval c08_senv [] 4 (for_entry_state c08_state c08_frame) (EVar [PIdent [97] (* a *) None]) =
+               Ok (as_value c08_list, st1) /\
+               iter_items c08_list false false =
+               Ok (Some [ (VInt 10, None); (VInt 20, None); (VInt 30, None) ])).
+Proof. exact tie_c08b_shadow_hyp_witness. Qed.
+
+(* FINDINGS (evaluated on the model, which mirrors pongo2's variable.go with fix D38): what
+   computed keys at the edges of the property do *)
+Example C08b_findings :
+  (* a[-1]: empty, no counting from the end *)
+  c08_sub c08_list (EInt (-1)) = Ok VNil /\
+  (* a[1]: the element; only an integer key is an index (fix D38) ... *)
+  c08_sub c08_list (EInt 1) = Ok (VInt 20) /\
+  (* ... a["1"], a[1.9]: empty - the string is not read as a number, the float is not truncated *)
+  c08_sub c08_list (EStr [49] (* 1 *)) = Ok VNil /\
+  c08_sub c08_list (EFloat c08_1_9) = Ok VNil /\
+  (* a[nil], a[true], a["x"], a[[]]: empty, not element 0 *)
+  c08_sub c08_list c08_undefined = Ok VNil /\
+  c08_sub c08_list (EBool true) = Ok VNil /\
+  c08_sub c08_list (EStr [120] (* x *)) = Ok VNil /\
+  c08_sub c08_list (EArray []) = Ok VNil /\
+  (* a["1e1"], a["nan"]: empty as well (the string is never parsed, so Go's float syntax does
+     not matter here any more) *)
+  c08_sub c08_list (EStr [49; 101; 49] (* 1e1 *)) = Ok VNil /\
+  c08_sub c08_list (EStr [110; 97; 110] (* nan *)) = Ok VNil /\
+  (* "abc"["1"]: the same on a string *)
+  c08_sub (VStr [97; 98; 99] (* abc *)) (EStr [49] (* 1 *)) = Ok VNil /\
+  (* "abc"[1]: the byte as a number, 98, not the string "b" *)
+  c08_sub (VStr [97; 98; 99] (* abc *)) (EInt 1) = Ok (VInt 98) /\
+  (* m[1] on a map with the key "1": empty, the integer is not turned into text; m["1"] finds it *)
+  c08_sub c08_map (EInt 1) = Ok VNil /\
+  c08_sub c08_map (EStr [49] (* 1 *)) = Ok (VStr [111; 110; 101] (* one *)) /\
+  (* m[nil]: empty *)
+  c08_sub c08_map c08_undefined = Ok VNil /\
+  (* s[1] on a struct: the key's text "1" names the field (a Go struct has no such field, the
+     model's struct here has one to show the conversion); s[nil] is the field "" : empty *)
+  c08_sub c08_struct (EInt 1) = Ok (VInt 6) /\
+  c08_sub c08_struct c08_undefined = Ok VNil /\
+  (* s[[]]: the text of a list contains Go type syntax: not modelled *)
+  c08_sub c08_struct (EArray []) = Unmod /\
+  (* 3[0], and a nil reached inside a walk: execution error; a nil found under a key ends the
+     walk with the empty value before any further subscript is looked at *)
+  c08_sub (VInt 3) (EInt 0) = Err 3 /\
+  c08_sub VNil (EInt 0) = Err 3 /\
+  walk c08_senv [] 20 c08_state c08_map false
+    [PSub (EStr [107] (* k *)) None; PSub (EInt 0) None; PIdent [120] (* x *) None] = Ok (as_value VNil, c08_state).
+Proof. exact tie_c08b_findings. Qed.
+
+Example C08b_static_vs_computed :
+  follow2 c08_map [SIndex 1] = ExecError /\ follow2 c08_map [SSub (VInt 1)] = Empty /\
+  follow2 c08_list [SName [120] (* x *)] = ExecError /\ follow2 c08_list [SSub (VStr [120] (* x *))] = Empty.
+Proof. exact tie_c08b_static_vs_computed. Qed.
